@@ -57,7 +57,7 @@ pub fn emit(args: std::fmt::Arguments<'_>, newline: bool) {
     state::with(|s| {
         let n = text.len();
         s.stdout.extend_from_slice(text.as_bytes());
-        s.event(|| format!("print {n}"));
+        s.event_k([2, n as u64, 0, 0], || format!("print {n}"));
     });
 }
 
